@@ -437,6 +437,77 @@ func init() {
 		}
 		return "ok"
 	})
+	// typ.use <kind> <tys...> <expect-hex>: the one-instruction function with a USE of the result spelled at LLVM's type
+	// (`%u = freeze T %r`): parse, print; the printed module must spell the use at the same type (the printer takes it from the
+	// parser-computed type of %r), i.e. parse-then-print preserves the text
+	reg("typ.use", func(a []string) string {
+		nm := map[string]*types.StructType{}
+		n := len(a)
+		ts := parseTys(nm, a[1:n-1])
+		want := string(unhexArg(a[n-1]))
+		text, ok := asmText(a[0], ts, nm)
+		if !ok || want == "void" || !strings.Contains(text, "\t%r = ") || strings.HasPrefix(a[0], "invoke") || strings.HasPrefix(a[0], "callbr") {
+			return "ok"
+		}
+		i := strings.Index(text, "\t%r = ")
+		j := i + strings.Index(text[i:], "\n")
+		use := fmt.Sprintf("\t%%u = freeze %s %%r", want)
+		text = text[:j+1] + use + "\n" + text[j+1:]
+		m, err := asm.ParseString("x.ll", text)
+		if err != nil {
+			return "ok" // the construct is not expressible this way (e.g. token results): nothing to compare
+		}
+		out := m.String()
+		if !strings.Contains(out, use+"\n") {
+			k := strings.Index(out, "%u = ")
+			got := ""
+			if k >= 0 {
+				got = out[k:]
+				if e := strings.IndexByte(got, '\n'); e >= 0 {
+					got = got[:e]
+				}
+			}
+			return "FAIL use-printed-as " + hexOut([]byte(got))
+		}
+		return "ok"
+	})
+	// cs.type <call|invoke|callbr> <sig descriptor F(ret;params)|G(ret;params)> <nextra>: the type spelled at the printed call site
+	// of a callee with that signature, called with its parameters plus <nextra> additional i32 arguments (variadic callees)
+	reg("cs.type", func(a []string) string {
+		nm := map[string]*types.StructType{}
+		sig := parseTyIn(nm, a[1]).(*types.FuncType)
+		nextra := int(uintArg(a[2]))
+		var ps []*ir.Param
+		for i, pt := range sig.Params {
+			ps = append(ps, ir.NewParam(fmt.Sprintf("a%d", i), pt))
+		}
+		callee := ir.NewFunc("callee", sig.RetType, ps...)
+		callee.Sig.Variadic = sig.Variadic
+		var args []value.Value
+		for _, pt := range sig.Params {
+			args = append(args, constant.NewUndef(pt))
+		}
+		for i := 0; i < nextra; i++ {
+			args = append(args, constant.NewInt(types.I32, int64(i)))
+		}
+		f := ir.NewFunc("f", types.Void)
+		b, b1, b2 := f.NewBlock("entry"), f.NewBlock("b1"), f.NewBlock("b2")
+		var text, kw string
+		switch a[0] {
+		case "call":
+			text, kw = b.NewCall(callee, args...).LLString(), "call "
+		case "invoke":
+			text, kw = b.NewInvoke(callee, args, b1, b2).LLString(), "invoke "
+		default:
+			text, kw = b.NewCallBr(callee, args, b1, b2).LLString(), "callbr "
+		}
+		i := strings.Index(text, kw)
+		j := strings.Index(text, " @callee(")
+		if i < 0 || j < 0 {
+			return "FAIL shape " + hexOut([]byte(text))
+		}
+		return hexOut([]byte(text[i+len(kw) : j]))
+	})
 	reg("gep.rt", func(a []string) string {
 		nm := map[string]*types.StructType{}
 		elem := parseTyIn(nm, a[0])
